@@ -61,6 +61,18 @@ class NameSite:
         from ..report import short_fn
         return (short_fn(self.func.qname), self.sig)
 
+    def ckey(self):
+        """key under which the table is consulted: the literal part of a name is identified by the characters it is made
+        of, not by how the pieces are cut (`"(" + v + ")" + "."` and f"({v}).") or ordered"""
+        k = self.key()
+        return (k[0], canon(k[1]))
+
+
+def canon(sig: str) -> str:
+    if sig.startswith("<"):
+        return sig
+    return "".join(sorted(set("".join(sig.split("|")))))
+
 
 def _local_imports(prog, fi):
     out = {}
@@ -110,6 +122,22 @@ def literal_parts(expr, assigns, depth=0, seen=None):
             lits += literal_parts(f.value, assigns, depth, seen)
             for a in expr.args:
                 lits += literal_parts(a, assigns, depth, seen)
+        else:
+            # a private string helper of the module / class (`_concat(a, b)` returning a + "." + b): what it returns is made
+            # of its arguments and of the literals of its return expressions
+            nm = f.id if isinstance(f, ast.Name) else (f.attr if isinstance(f, ast.Attribute) and isinstance(f.value, ast.Name)
+                                                        and f.value.id in ("self", "cls") else None)
+            h = assigns.get("@helpers", {}).get(nm) if nm and nm.startswith("_") else None
+            if h is not None and depth < 3 and ("@fn:" + nm) not in seen:
+                seen.add("@fn:" + nm)
+                for a in expr.args:
+                    lits += literal_parts(a, assigns, depth, seen)
+                hassigns = _assignments(h)
+                hassigns["@consts"] = assigns.get("@consts", {})
+                hassigns["@helpers"] = assigns.get("@helpers", {})
+                for r in ast.walk(h):
+                    if isinstance(r, ast.Return) and r.value is not None:
+                        lits += literal_parts(r.value, hassigns, depth + 1, set(x for x in seen if x.startswith("@fn:")))
     elif isinstance(expr, ast.Name) and expr.id in assigns.get("@consts", {}):
         lits.append(assigns["@consts"][expr.id])
     elif isinstance(expr, ast.Name) and depth < 3 and expr.id not in seen:
@@ -196,6 +224,12 @@ def enumerate_sites(prog) -> List[NameSite]:
                     and isinstance(d.node.value, str):
                 consts[nm] = d.node.value
         assigns["@consts"] = consts
+        helpers = {}
+        for q2, g in prog.functions.items():
+            if g.module == fi.module and isinstance(g.node, ast.FunctionDef) and g.name.startswith("_") and \
+                    not g.name.endswith("__") and (g.cls is None or (fi.cls is not None and g.cls.qname in fi.cls.mro)):
+                helpers.setdefault(g.name, g.node)
+        assigns["@helpers"] = helpers
         strnames = str_locals(fi.node, assigns)
         # name-building assignments inside freshness loops over bare values (FST states are arbitrary hashables)
         loops = freshness_loop_vars(fi.node)
@@ -453,6 +487,19 @@ FRESH_CALL_EXPECT = {
 COLLECTION_FOR_TYPE = {"State": "self._states", "StackSymbol": "self._stack_alphabet"}
 
 
+def _tc():
+    return {(f, canon(k)): (f, k) for (f, k) in T}
+
+
+def _t_get(s):
+    """table entry of a site: by its exact signature, else by the canonical one"""
+    ent = T.get(s.key())
+    if ent is None:
+        raw = _tc().get(s.ckey())
+        ent = T.get(raw) if raw is not None else None
+    return ent
+
+
 def check(eng, rep, prop):
     """Emit the R5 / R5b obligations that belong to property `prop`."""
     from ..report import short_fn
@@ -464,7 +511,7 @@ def check(eng, rep, prop):
     n = 0
     # table entries that the generic enumeration does not reach (names built in one function and turned into an
     # identifier in another): locate the literal in the named function, or fail as a vanished anchor
-    have = {s.key() for s in sites}
+    have = {s.key() for s in sites} | {_tc().get(s.ckey()) for s in sites}
     for key, ent in sorted(T.items()):
         if ent[0] != prop or key in have:
             continue
@@ -483,7 +530,7 @@ def check(eng, rep, prop):
             # which passes the same template check (eliminated through substitute() before returning)
             def _pref(a, b):
                 return len(a) >= 2 and b.startswith(a)
-            twin = next((s2 for s2 in sites if s2.func.module == (fi.module if fi is not None else None) and s2.key() not in T
+            twin = next((s2 for s2 in sites if s2.func.module == (fi.module if fi is not None else None) and _t_get(s2) is None
                          and any(_pref(lit, key[1]) for lit in s2.literals) and template_ok(prog, s2)[0]), None)
             if twin is not None:
                 rep.holds("R5", prop + ".R5", twin.func.qname, "template:" + key[1],
@@ -502,14 +549,14 @@ def check(eng, rep, prop):
         sites.append(NameSite(fi, par, "name-local", "str", [key[1]], node))
     moved_from = {}
     for s in sites:
-        if s.key() not in T and s.category == "":
+        if _t_get(s) is None and s.category == "":
             src = _moved_entry(prog, s, have)
             if src is not None:
                 moved_from[s.key()] = src
     for s in sites:
         key = s.key()
         fshort = key[0]
-        ent = T.get(key)
+        ent = _t_get(s)
         moved = False
         if ent is None and key in moved_from:
             # the literal-bearing construction was moved to another function of the same class / module (extract
@@ -649,7 +696,7 @@ def _moved_entry(prog, s, have):
     """Table key whose listed site vanished from its function while a site with the same literal now exists in another
     function of the same class / module."""
     for key in T:
-        if key[1] == s.sig and key not in have and _same_unit(prog, s.func, key[0]):
+        if canon(key[1]) == canon(s.sig) and key not in have and _same_unit(prog, s.func, key[0]):
             return key
     return None
 
@@ -657,7 +704,7 @@ def _moved_entry(prog, s, have):
 def _moved_sources(prog, sites, have):
     out = set()
     for s in sites:
-        if s.key() not in T and s.category == "":
+        if _t_get(s) is None and s.category == "":
             src = _moved_entry(prog, s, have)
             if src is not None:
                 out.add(src)
